@@ -142,7 +142,7 @@ class Interval:
         bounds = [bd for bd in bounds if bd[0] is not None]
 
         start, left_open = min(bounds, key=lambda p: (eval_expr(p[0]), p[1]))
-        end, right_open = max(bounds, key=lambda p: (eval_expr(p[0]), p[1]))
+        end, right_open = max(bounds, key=lambda p: (eval_expr(p[0]), not p[1]))
         return Interval(start, end, left_open, right_open)
 
     def inverse(self) -> "Interval":
